@@ -1,9 +1,52 @@
-(* C14 — union values are decoded as the right variant, never lossily. *)
+(* C14 — union values are decoded as the right variant, never lossily.
+   Only statements, [exact], and Print Assumptions live here. *)
 From PG Require Import Lib.Strs Model.Union Proofs.Union.
 From Coq Require Import ZArith.
 
+(* With a discriminator whose mapping sends the payload's discriminator value d to V, the result IS
+   the structuring of V (a V or an error) — whatever the other variants and their order are. *)
+Theorem C14_disc_exact : forall p m vs kv d V,
+  NoDup (map fst m) -> In (d, V) m -> alookup p kv = Some (JStr d) ->
+  structure_union (Some (p, m)) vs (JObj kv) = structure V (JObj kv).
+Proof. exact disc_exact. Qed.
+Print Assumptions C14_disc_exact.
+
+(* A discriminator value (of any JSON kind) outside a non-empty mapping is an error, not a guess. *)
+Theorem C14_disc_unknown : forall p m vs kv dv,
+  m <> [] -> alookup p kv = Some dv ->
+  (forall s, dv = JStr s -> ~ In s (map fst m)) ->
+  structure_union (Some (p, m)) vs (JObj kv) = Err.
+Proof. exact disc_unknown. Qed.
+Print Assumptions C14_disc_unknown.
+
+(* A payload whose mapped variant fails to decode is reported; no other variant is tried. *)
+Theorem C14_no_retry : forall p m vs kv d V,
+  NoDup (map fst m) -> In (d, V) m -> alookup p kv = Some (JStr d) ->
+  structure V (JObj kv) = Err ->
+  structure_union (Some (p, m)) vs (JObj kv) = Err.
+Proof. exact no_retry. Qed.
+Print Assumptions C14_no_retry.
+
 Theorem C14_refuted_F14a :
-  conforms tB j_F14a = true /\ safe u_F14a j_F14a = false /\
+  conforms (nth 1 [tA; tB] TNone) j_F14a = true /\ safe u_F14a j_F14a = false /\
   structure u_F14a j_F14a = Ok (VObj [65] [(k_x, VInt 1%Z)]) /\ ~ lossless u_F14a j_F14a.
 Proof. exact refuted_F14a. Qed.
 Print Assumptions C14_refuted_F14a.
+
+Theorem C14_refuted_F14b :
+  conforms (nth 1 [TStr; TInt] TNone) j_F14b = true /\ safe u_F14b j_F14b = false /\
+  structure u_F14b j_F14b = Ok (VStr [53]) /\ ~ lossless u_F14b j_F14b.
+Proof. exact refuted_F14b. Qed.
+Print Assumptions C14_refuted_F14b.
+
+Theorem C14_refuted_F14d :
+  conforms (nth 1 [tTa; tTb] TNone) j_F14d = true /\ safe u_F14d j_F14d = false /\
+  structure u_F14d j_F14d = Ok (VObj n_Ta [(k_t, VStr n_Tb); (k_x, VInt 1%Z)]) /\ ~ lossless u_F14d j_F14d.
+Proof. exact refuted_F14d. Qed.
+Print Assumptions C14_refuted_F14d.
+
+Theorem C14_refuted_F14e :
+  conforms (nth 1 [tA; TMap TInt] TNone) j_F14e = true /\ safe u_F14e j_F14e = false /\
+  structure u_F14e j_F14e = Err /\ ~ lossless u_F14e j_F14e.
+Proof. exact refuted_F14e. Qed.
+Print Assumptions C14_refuted_F14e.
